@@ -148,3 +148,13 @@ def all_strings_doc():
     for i, s_ in enumerate(STRINGS):
         b.agent(EX["t%d" % i], [("prov:label", M.Literal(s_, langtag="en-gb")), (EX["k"], s_)])
     return d
+
+
+def dense_doc():
+    """one fixed document whose serialisation is far longer than any stream buffer and consists almost only of 2-, 3- and
+    4-byte characters: wherever a copy is cut into blocks, a character is cut too"""
+    d = M.ProvDocument()
+    d.add_namespace(EX)
+    for i, unit in enumerate(("ファイル", "é", "\U0001F600", "ü" + "語")):
+        d.entity(EX["dense%d" % i], [(EX["note"], unit * (9000 // len(unit) + i)), ("prov:label", unit * 700)])
+    return d
